@@ -41,4 +41,44 @@ theorem C13_program (cc : Asm.CharClass) (hcc : SaneClasses cc) (lead : List Cha
   simp only [C13_encode _ (wellLaidOut_operands hw)]
   cases AsmSpec.denoteAll (prog.map (·.1)) <;> rfl
 
+-- non-vacuity ------------------------------------------------------------------------------------------------
+
+-- the hypotheses on the character classes hold of the ASCII classes (`saneClasses_drive` in `Lemmas/RtLemmas.lean`
+-- shows them of the driver's model of Rust's Unicode classes)
+example : SaneClasses asciiClasses := saneClasses_ascii
+
+-- every documented mnemonic is an admissible name
+example : ∀ r ∈ AsmSpec.table, NameOk r.1.toList := fun r hr => nameOk_of_table ⟨r, hr, rfl⟩
+
+-- a liberal spelling of `mov r1, -16 ; exit` is well laid out …
+example : WellLaidOut asciiClasses
+    [({ name := "mov".toList, operands := [.register 1, .integer (-16)] },
+      { afterName := [' ', '\t'], afterComma := [' '], styles := [{}, { hex := true, upper := true, zeros := 2 }] }, ['\n']),
+     ({ name := "exit".toList, operands := [] }, { afterName := [], afterComma := [], styles := [] }, [])] := by
+  refine ⟨⟨nameOk_of_nameOkB (by decide), by decide, by decide, by decide, fun _ => by simp, ?_⟩, .inl (by simp),
+    ⟨nameOk_of_nameOkB (by decide), by decide, by decide, by decide, fun h => absurd rfl h, by simp⟩, .inr rfl, trivial⟩
+  intro o ho
+  simp only [List.mem_cons, List.not_mem_nil, or_false] at ho
+  rcases ho with rfl | rfl <;> simp [OperandI64, AsmSpec.imm64Ok]
+
+-- … its text assembles to the two slots it denotes (the model evaluated), a too-wide immediate, an unknown
+-- mnemonic and a wrong operand shape are errors
+example : Asm.assemble asciiClasses "mov \tr1, -0x0010\nexit".toList =
+    .ok [0xb7, 1, 0, 0, 0xf0, 0xff, 0xff, 0xff, 0x95, 0, 0, 0, 0, 0, 0, 0] := by decide +kernel
+example : AsmSpec.denoteAll [{ name := "mov".toList, operands := [.register 1, .integer (-16)] },
+    { name := "exit".toList, operands := [] }] =
+    some [{ opc := 0xb7, dst := 1, src := 0, off := 0, imm := 0xfffffff0 }, { opc := 0x95, dst := 0, src := 0, off := 0, imm := 0 }] := by
+  decide +kernel
+example : Asm.assemble asciiClasses "mov r1, 0x100000000".toList = .err := by decide +kernel
+example : AsmSpec.denoteAll [{ name := "mov".toList, operands := [.register 1, .integer 4294967296] }] = none := by
+  decide +kernel
+example : Asm.assemble asciiClasses "frob r1".toList = .err := by decide +kernel
+example : Asm.assemble asciiClasses "exit r1".toList = .err := by decide +kernel
+-- `lddw` occupies two slots; `rsh` directly after a zero-operand instruction parses
+example : Asm.assemble asciiClasses "lddw r2, 0x1122334455667788".toList =
+    .ok [0x18, 2, 0, 0, 0x88, 0x77, 0x66, 0x55, 0, 0, 0, 0, 0x44, 0x33, 0x22, 0x11] := by decide +kernel
+example : Asm.parse asciiClasses "exit\nrsh r1, 2".toList =
+    .ok [{ name := "exit".toList, operands := [] }, { name := "rsh".toList, operands := [.register 1, .integer 2] }] := by
+  decide +kernel
+
 end Rbpf
